@@ -1253,7 +1253,15 @@ class Unit:
             self._emit('        returns ' + returns)
         if decreases:
             self._emit('        decreases ' + decreases)
-        self._emit(body.t)
+        body_a, _ = self._emit(body.t)
+        cl_clauses = {c.label: c for sp in (closures or {}).values() for c in (sp.get('ensures') or []) if isinstance(c, Clause)}
+        for off, line in enumerate(body.t.split('\n')):
+            for ml in re.finditer(r'/\*VL:(\w+)\*/', line):
+                c = cl_clauses.get(ml.group(1))
+                if c is not None:
+                    ob = '%s::%s::%s' % (self.name, disp, c.label)
+                    self.labels.append((body_a + off, body_a + off, ob))
+                    self.obligations[ob] = dict(props=c.props or props, kind='ensures', fn=disp, text=norm_ws(c.text)[:400])
         fn_to = len(self.lines)
         self.fn_ranges.append((fn_from, fn_to, disp, safety))
         if requires and vacuity:
@@ -1523,7 +1531,12 @@ def _closure_contract(body: Text, k, spec):
     if spec.get('requires'):
         head += ' requires ' + ', '.join(_ren(x) for x in spec['requires']) + ','
     if spec.get('ensures'):
-        head += ' ensures ' + ', '.join(_ren(x) for x in spec['ensures']) + ','
+        if any(isinstance(x, Clause) for x in spec['ensures']):
+            # labelled closure postconditions: one per line behind a marker, so that a failing one is reported as its own
+            # obligation (with its own property tags) instead of the enclosing function's safety obligation
+            head += '\n            ensures\n' + ''.join('                %s%s,\n' % ('/*VL:%s*/ ' % x.label if isinstance(x, Clause) else '', _ren(x.text if isinstance(x, Clause) else x)) for x in spec['ensures']) + '           '
+        else:
+            head += ' ensures ' + ', '.join(_ren(x) for x in spec['ensures']) + ','
     # apply back to front so offsets stay valid
     if wrap:
         body.edit('R11', end, end, ' }', 'closure #%d' % k)
